@@ -55,10 +55,15 @@ func Shard() (int, int) {
 
 // Scale returns the tier's total number of cases (summed over all shards).
 func Scale(quick, thorough int) int {
+	n := quick
 	if Thorough() {
-		return thorough
+		n = thorough
 	}
-	return quick
+	// VERIF_LIMIT caps the case count (development aid; registered commands never set it)
+	if l := int(envInt("VERIF_LIMIT", 0)); l > 0 && l < n {
+		n = l
+	}
+	return n
 }
 
 // OnlyCase returns the case index selected by VERIF_CASE for a replay, or -1.
